@@ -285,7 +285,11 @@ func (c *Ctx) checkErrBranch(rule string, fn *ssa.Function, construct string, er
 				if isNilConst(rv[errIdx]) {
 					report(construct, p.InstrPos(t), "on the branch where this call failed the function returns a nil error")
 				} else if !termMentions(et, errVal, errS) {
-					report(construct, p.InstrPos(t), "on the branch where this call failed the returned error ("+et.String()+") is not derived from the failure")
+					// fail-closed mode: a freshly built error (fmt.Errorf / errors.New) is certainly non-nil
+					fresh := et.Op == "Call" && (et.Name == "fmt.Errorf" || et.Name == "errors.New")
+					if c.errStrict || !fresh {
+						report(construct, p.InstrPos(t), "on the branch where this call failed the returned error ("+et.String()+") is not derived from the failure")
+					}
 				}
 				return
 			case *ssa.Panic:
